@@ -539,14 +539,21 @@ def infer(u, fns, kmax=4):
                 return [s for s in Analyzer3(u, fn, assume, reqs).run() if not s[3]]
             assume = dict(cur)
             k = max(cur.values())
-            while bad(assume) and k < kmax:
+            best = (len(bad(assume)), dict(assume))
+            while best[0] and k < kmax:
                 k += 1
                 assume = {n: max(v, k) for n, v in assume.items()}
+                nb = len(bad(assume))
+                if nb < best[0]:
+                    best = (nb, dict(assume))
+            # no assumption makes everything provable: keep the least one with the fewest unjustified sites, so that they
+            # are reported where they are and not as an impossible demand on the callers
+            assume, residual = best[1], best[0]
             for (i, _n, key) in cps:
                 while assume[key] > cur[key]:
                     trial = dict(assume)
                     trial[key] = assume[key] - 1
-                    if bad(trial):
+                    if len(bad(trial)) > residual:
                         break
                     assume = trial
             new = {i: assume[key] for (i, _n, key) in cps}
